@@ -35,6 +35,7 @@ static std::string mkval(long id)
 }
 static long unval(std::string const &s)
 {
+	if(!s.empty() && s[0]=='B') { long id=atol(s.c_str()+1); for(size_t i=s.find(';')+1;i<s.size();i++) if(s[i]!=char('a'+id%26)) return -1; return id; }
 	if(s.empty()||s[0]!='V') return -1;
 	long id=atol(s.c_str()+1);
 	return mkval(id)==s ? id : -1;
@@ -68,6 +69,18 @@ static void op_store(int k,std::vector<int> const &ts,int dl)
 	cache->store(nm(k),mkval(id),trig,vt::clock_base+dl);
 	std::set<int> tset(ts.begin(),ts.end());
 	vt::J j; j.s("e","Store").i("k",k).i("v",id).a("ts",tset).i("dl",dl);
+	stats(j); tr.line(j.str());
+}
+// store with a value of a given size (process-shared: up to beyond the segment)
+static void op_bigstore(int k,int dl,size_t size)
+{
+	std::set<std::string> trig;
+	long id=++vcounter;
+	char b[32]; snprintf(b,sizeof(b),"B%ld;",id);
+	std::string v=b; if(v.size()<size) v.append(size-v.size(),char('a'+id%26));
+	cache->store(nm(k),v,trig,vt::clock_base+dl);
+	std::set<int> none;
+	vt::J j; j.s("e","Store").i("k",k).i("v",id).a("ts",none).i("dl",dl).i("size",(long long)size);
 	stats(j); tr.line(j.str());
 }
 static void op_fetch(int k)
@@ -195,6 +208,7 @@ int main(int argc,char **argv)
 		std::string w;
 		while(std::cin>>w) {
 			if(w=="store") { int k,n,dl; std::cin>>k>>dl>>n; std::vector<int> ts(n); for(int i=0;i<n;i++) std::cin>>ts[i]; op_store(k,ts,dl); }
+			else if(w=="bigstore") { int k,dl; long size; std::cin>>k>>dl>>size; op_bigstore(k,dl,size); }
 			else if(w=="fetch") { int k; std::cin>>k; op_fetch(k); }
 			else if(w=="rise") { int k; std::cin>>k; op_rise(k); }
 			else if(w=="remove") { int k; std::cin>>k; op_remove(k); }
